@@ -144,4 +144,12 @@ META = {
           "M4: the k-th retry of an automatic task that times out is sent exactly response_timeout + min(retry_min * 2^(k-1), retry_max) after the previous attempt, and the delay returns to the minimum after a success."),
     note="Back-off is observed for time-outs of one automatic task per scenario; IIN2-rejected tasks are not retried (checked only as absence of M1 violations).",
  ),
+ "C19": dict(
+    engine="vh",
+    design_ref="5.19",
+    technique="runtime monitor: reference schedule model (eligibility instants of user requests, polls, keep-alives; least-recently-served ring) evaluated at every request the master writes in virtual time, plus scheduler-pass counter from hook H5",
+    text=("Exploration over 1-3 associations on one channel with polls, keep-alives, user requests submitted singly or in bursts at arbitrary virtual instants, poll demands, prompt/late/missing replies and unrelated traffic. At each request written: Q1 user requests are FIFO per association and precede every poll and keep-alive; Q2 a poll is never sent before its previous completion (reply or time-out) plus its period unless demanded; "
+          "Q3 among associations with work of the same class the least recently served goes first; Q4 a link status request is sent only after keep-alive silence from that outstation and not while one of its polls is due; Q5 never two requests outstanding; Q6 the write instant equals max(channel became free, earliest eligibility of anything pending) exactly - no starvation, no early wake-up - and the number of scheduler passes is bounded by the number of events."),
+    note="Automatic start-up tasks are disabled here (C17 covers them); channel enable/disable toggles are not yet driven.",
+ ),
 }
